@@ -93,7 +93,7 @@ func cmdRun(args []string) int {
 		if *tier == "quick" {
 			mw = 150 * time.Second
 		} else {
-			mw = 40 * time.Minute
+			mw = 20 * time.Minute
 		}
 	}
 	return runner.RunProperty(runner.RunConfig{Prop: prop, Tier: *tier, VerifSeed: vs, Workers: w, VerifDir: *verif, Self: self, RepoRev: *rev, MaxWall: mw, Seeds: seeds})
